@@ -235,7 +235,16 @@ func setupC13(x *Ctx) {
 				// one message may be in flight through the read pump (it passed the
 				// closed-check) while the other pump reports the error at that instant
 				discr := cause
-				if late == 1 && cause != "local" && e.Task != boundEv.Task && e.T == boundEv.T {
+				// "in flight": the bytes of this message had been taken off the transport by
+				// the delivering goroutine before the end was known (its last completed read
+				// precedes the report), and nothing was read afterwards
+				lastRead := -1
+				for _, r := range evs {
+					if r.Kind == "net-read" && r.Task == e.Task && r.Seq < e.Seq {
+						lastRead = r.Seq
+					}
+				}
+				if late == 1 && cause != "local" && e.Task != boundEv.Task && lastRead >= 0 && lastRead < bound {
 					discr = "in-flight-in-read-pump-while-write-pump-reports"
 				}
 				x.Violate("delivery-after-close", discr, fmt.Sprintf("%s: message %d handed to the SHIP layer (by %s) after the connection end was known (reported by %s)", variant, e.N, e.Task, boundEv.Task))
